@@ -30,6 +30,12 @@ CHECKS = {
    note="IdealSig (EUF-CMA idealisation) and comparison of signed messages as typed field lists are assumptions; otherwise as C08.",
    technique="Lean 4 proof over an idealised-signature model + kernel-checked counterexamples + differential correspondence with a real dkg.Process"),
 }
+ENGINES = [
+ {"name": "lean-model", "path": "lean/Drand", "serves_properties": sorted(CHECKS), "kind_free_text": "executable Lean 4 model (core only) + compiled line-protocol driver lean/Main.lean (vdriver)"},
+ {"name": "lean-proofs", "path": "lean/DrandProofs", "serves_properties": sorted(CHECKS), "kind_free_text": "property theorems, one file per property; kernel-checked, axioms audited on every run"},
+ {"name": "go2lean", "path": "tools/go2lean", "serves_properties": sorted(CHECKS), "kind_free_text": "go/ast fact extractor regenerating lean/Gen from /repo on every run"},
+ {"name": "verifh", "path": "harness", "serves_properties": sorted(CHECKS), "kind_free_text": "Go harness overlaid into /repo at build time (go build -overlay, tags verif conn_insecure); one sub-engine per model engine: " + ", ".join(sorted({c["engine"] for c in CHECKS.values()}))},
+]
 NOT_YET = {}
 for i in range(1, 21):
     pid = f"C{i:02d}"
@@ -42,7 +48,7 @@ m = {
  "hooks": {"guard": "verif",
            "enable": "cd /repo && GOFLAGS=-mod=mod GOPROXY=off go build -tags 'verif conn_insecure' -overlay /verif/.build/overlay.json -o /verif/.build/verifh ./internal/verifh  (overlay adds files only; nothing in /repo is modified)",
            "baseline_off_cmd": BASE, "source_commits": [], "add_only": True},
- "engines": [],
+ "engines": ENGINES,
  "checks": [],
  "not_applicable": [{"property_id": k, "reason": v} for k, v in sorted(NOT_YET.items())],
  "notes": "Every check: regenerate lean/Gen from /repo (go2lean) -> lake build the property's proof module + #print axioms audit -> build overlay harness + Lean driver -> differential correspondence + direct property oracle on the implementation -> evidence. See DESIGN.md.",
